@@ -209,7 +209,7 @@ CHECKS = {
     ),
     "C06": dict(
         pkg=".", hdir="root", test="TestVerif_C06", wal=True,
-        quick=dict(shards=16, checks=5000, timeout=600),
+        quick=dict(shards=16, checks=3000, timeout=600),
         thorough=dict(shards=16, checks=12000, timeout=3000),
         technique="stateful property-based testing (rapid): consistency oracle between the reported writing state and decoded files/open descriptors",
         rule="rapid-generated histories (2-16 steps) on a real 2-4 channel AnySource with auto triggers (some channels with projectors): "
